@@ -327,7 +327,16 @@ where
 
         self.read_block()?;
 
-        self.buffer.block.data_mut().set_position(usize::from(upos));
+        let upos = usize::from(upos);
+
+        if upos > self.buffer.block.data().len() {
+            return Err(io::Error::new(
+                io::ErrorKind::InvalidInput,
+                "invalid virtual position: uncompressed position exceeds block data length",
+            ));
+        }
+
+        self.buffer.block.data_mut().set_position(upos);
 
         Ok(pos)
     }
